@@ -63,6 +63,10 @@ def inputs(run: Run, cfg: dict) -> list[dict]:
         add(alpha.concretise(a, rng, 1), "soup", a)
     for c in gens.lexgen(run, cfg["lex"]):
         add(c["src"], "lexgen", c["lex"])
+    from . import c10
+
+    for c in c10.generate(run, run.tier)[:: (3 if run.tier == "quick" else 1)]:
+        add(c["src"], "fstring.tla")
     for name, src in corpus.programs(cap=cfg["corpus_cap"]):
         add(src, f"corpus:{name}")
         for lay, s2 in corpus.layouts(src):
